@@ -10,6 +10,43 @@ mod fs;
 mod run_script;
 mod work_dir;
 
+#[cfg(zinoma_verif)]
+pub mod verif;
+/// Names the items of the private modules for the external verification harness.
+#[cfg(zinoma_verif)]
+pub mod verif_api {
+    pub mod domain {
+        pub use crate::domain::*;
+    }
+    pub mod yaml {
+        pub use crate::config::yaml::*;
+    }
+    pub mod ir {
+        pub use crate::config::ir::*;
+    }
+    pub mod fs {
+        pub use crate::fs::*;
+    }
+    pub mod clean {
+        pub use crate::clean::*;
+    }
+    pub mod work_dir {
+        pub use crate::work_dir::*;
+    }
+    pub mod cli {
+        pub use crate::cli::*;
+    }
+    pub mod engine {
+        pub use crate::engine::verif_reexports::*;
+        pub use crate::engine::{run, TargetActors, WatchOption};
+        pub mod incremental {
+            pub use crate::engine::incremental::storage;
+            pub use crate::engine::incremental::{run, IncrementalRunResult};
+        }
+    }
+    pub use crate::{TerminationMessage, DEFAULT_CHANNEL_CAP};
+}
+
 use anyhow::{Context, Result};
 use async_ctrlc::CtrlC;
 use async_std::channel::{self, Receiver};
